@@ -154,6 +154,7 @@ def kernels():
         for i in range(NU):
             for j in range(NV):
                 g.add('%s_ph_%d_%d' % (tag, i, j), KARGS, ph[i, j])
+                if tag == 'as': g.add('as_rad_%d_%d' % (i, j), KARGS, W._radicand(ph[i, j]))
                 g.add('%s_re_%d_%d' % (tag, i, j), KARGS, H[i, j].re); g.add('%s_im_%d_%d' % (tag, i, j), KARGS, H[i, j].im)
     ns = shim.base_namespace()
     shim.load('odak/learn/wave/util.py', ['wavenumber', 'generate_complex_field'], ns)
@@ -168,6 +169,7 @@ def kernels():
             if len(conds) != 1 or not isinstance(conds[0][1], shim.B) or len(coss) != 1:
                 raise shim.TraceError('band-limited kernel pixel: %d conditionals, %d cosines (expected one mask and one phase)' % (len(conds), len(coss)))
             g.add('bl_mask_%d_%d' % (i, j), KARGS, conds[0][1]); g.add('bl_ph_%d_%d' % (i, j), KARGS, coss[0][1])
+            g.add('bl_rad_%d_%d' % (i, j), KARGS, W._radicand(coss[0][1]))
             g.add('bl_re_%d_%d' % (i, j), KARGS, e.re); g.add('bl_im_%d_%d' % (i, j), KARGS, e.im)
     for tag, fname in (('nas', 'angular_spectrum'), ('ntf', 'transfer_function_fresnel'), ('nbl', 'band_limited_angular_spectrum')):
         ns = opshim.namespace(); store = []
@@ -181,6 +183,7 @@ def kernels():
             for j in range(NV):
                 e = shim.CE.lift(lits[0][i, j])
                 g.add('%s_ph_%d_%d' % (tag, i, j), ['k'] + KARGS, ph[i, j])
+                if tag in ('nas', 'nbl'): g.add('%s_rad_%d_%d' % (tag, i, j), ['k'] + KARGS, W._radicand(ph[i, j]))
                 g.add('%s_re_%d_%d' % (tag, i, j), ['k'] + KARGS, e.re); g.add('%s_im_%d_%d' % (tag, i, j), ['k'] + KARGS, e.im)
     return g
 
